@@ -349,9 +349,13 @@ func cmdCheck(argv []string) int {
 			}
 		}
 	}
-	os.MkdirAll(filepath.Join(verifDir, "replays"), 0755)
+	replayDir := filepath.Join(verifDir, "replays")
+	if d := os.Getenv("VERIF_EVIDENCE_DIR"); d != "" {
+		replayDir = d
+	}
+	os.MkdirAll(replayDir, 0755)
 	for i, v := range confirmed {
-		p := filepath.Join(verifDir, "replays", fmt.Sprintf("%s-%d.json", id, i))
+		p := filepath.Join(replayDir, fmt.Sprintf("%s-%d.json", id, i))
 		e, a := entryOf(v.Harness)
 		b, _ := json.MarshalIndent(nativeCase{ID: "replay", Entry: e, Args: a, Inputs: v.Inputs, Known: knownList, Props: []string{id}, Want: v.Label, Reps: 3000}, "", " ")
 		os.WriteFile(p, b, 0644)
@@ -577,9 +581,13 @@ func writeEvidence(spec PropSpec, tier string, seed int, st *Stats, results []*R
 	}
 	ev["coverage"] = cov
 	ev["assumptions"] = assume
-	os.MkdirAll(filepath.Join(verifDir, "evidence"), 0755)
+	evDir := filepath.Join(verifDir, "evidence")
+	if d := os.Getenv("VERIF_EVIDENCE_DIR"); d != "" {
+		evDir = d // development runs against scratch trees must not overwrite the committed evidence
+	}
+	os.MkdirAll(evDir, 0755)
 	b, _ := json.MarshalIndent(ev, "", " ")
-	os.WriteFile(filepath.Join(verifDir, "evidence", spec.ID+".json"), b, 0644)
+	os.WriteFile(filepath.Join(evDir, spec.ID+".json"), b, 0644)
 }
 
 func firstTrace(ts [][]string) []string {
